@@ -348,9 +348,33 @@ def _last(name):
     return name.split("::")[-1]
 
 
+def _fallible(prog, st, info, T):
+    """A term-valued result whose destination is an Option / Result local, as its two variants: the success variant
+    carries unwrap(T) - the same term `.unwrap()` / `.expect(..)` give - so that a `match` or `let .. else` on the
+    result and an unwrap of it are the same thing to the comparison of terms."""
+    t, fr = info.get("term"), info.get("caller")
+    d = t.get("d") if t else None
+    if not d or d.get("p") or fr is None:
+        return None
+    ty = prog.ty(fr.body["locals"][d["l"]])
+    if ty.get("k") != "adt":
+        return None
+    inner = ("app", "unwrap", (T,))
+    if ty.get("def") == "core::option::Option":
+        return [(st, "ret", adt("core::option::Option", 1, (inner,))), (st.fork(), "ret", adt("core::option::Option", 0, ()))]
+    if ty.get("def") == "core::result::Result":
+        return [(st, "ret", adt("core::result::Result", 0, (inner,))), (st.fork(), "ret", adt("core::result::Result", 1, (TOP,)))]
+    return None
+
+
 def term_prims(prog):
     def unwrap(ip, st, args, info):
-        return [(st, "ret", ("app", "unwrap", (args[0],)))]
+        v = args[0]
+        if v[0] == "adt" and v[1] == "core::option::Option":
+            return [(st, "ret", v[3][0])] if v[2] == 1 else [(st, "panic", "unwrap of None")]
+        if v[0] == "adt" and v[1] == "core::result::Result":
+            return [(st, "ret", v[3][0])] if v[2] == 0 else [(st, "panic", "unwrap of Err")]
+        return [(st, "ret", ("app", "unwrap", (v,)))]
 
     def nn_new(ip, st, args, info):
         s2 = st.fork()
@@ -374,7 +398,8 @@ def term_prims(prog):
 
     def op(name):
         def h(ip, st, args, info):
-            return [(st, "ret", ("app", name, tuple(val(ip, st, a) for a in args)))]
+            T = ("app", name, tuple(val(ip, st, a) for a in args))
+            return _fallible(prog, st, info, T) or [(st, "ret", T)]
         return h
 
     def alloc(ip, st, args, info):
@@ -463,7 +488,8 @@ def _opaque_trait(ip, st, args, info):
             except interp.InterpError:
                 pass
         vals.append(a)
-    return [(st, "ret", ("app", d, tuple(vals)))]
+    T = ("app", d, tuple(vals))
+    return _fallible(ip.prog, st, info, T) or [(st, "ret", T)]
 
 
 def _subst(t, mapping):
